@@ -114,6 +114,15 @@ def int_constraint(draw, cfg, unsigned_only=False, size=False):
             r = draw(st.integers(0, 2))
             b = draw(biased_int(I64_MIN, I64_MAX))
             rs = [(None, b)] if r == 0 else ([(None, None)] if r == 1 else [(b, None)])
+        elif shape == "union" and draw(st.integers(0, 2)) == 0:
+            # two ranges whose hull is exactly a native type's range (the compiler short-cuts on the hull)
+            lo_, hi_ = draw(st.sampled_from([(0, (1 << 32) - 1), (0, 255), (0, 65535), (-128, 127), (-32768, 32767),
+                                             (-(1 << 31), (1 << 31) - 1), (0, (1 << 31) - 1), (0, I64_MAX), (I64_MIN, I64_MAX)]))
+            k1, k2 = draw(st.integers(0, 20)), draw(st.integers(0, 20))
+            if lo_ + k1 + 1 < hi_ - k2:
+                rs = [(lo_, lo_ + k1), (hi_ - k2, hi_)]
+            else:
+                rs = [(lo_, hi_)]
         elif shape == "union":
             a = draw(biased_int(-70000, 70000))
             b = a + draw(st.integers(0, 300))
@@ -672,7 +681,7 @@ def _values(mod, t, cfg, depth=0, max_len=12):
         if rt.cons:
             return int_in_cons(rt.cons, inside_only=not rt.cons.ext)
         if cfg.wide_ints:
-            return biased_int(I64_MIN, I64_MAX) | st.integers(-(1 << 130), 1 << 130)
+            return biased_int(I64_MIN, I64_MAX) | st.integers(-(1 << 130), 1 << 130) | st.integers(-(1 << 330), 1 << 330)
         return biased_int(I64_MIN, I64_MAX)
     if k == "ENUMERATED":
         return st.sampled_from([v for _, v in rt.named + rt.ext_named])
@@ -856,6 +865,12 @@ def catalogue():
     for n in (7, 8, 9, 16):
         ts.append(("QX%d" % n, T("SEQUENCE", members=[Member("r", T("INTEGER", cons=Cons("value", [(0, 255)])))] +
                                  [Member("e%d" % j, T("BOOLEAN"), optional=True, ext=True) for j in range(n)], ext=True)))
+    # OPTIONAL / DEFAULT root components right before the extension marker (unknown additions follow absent components)
+    ts.append(("QO1", T("SEQUENCE", members=[Member("id", T("INTEGER")), Member("note", T("BOOLEAN"), optional=True)], ext=True)))
+    ts.append(("QO2", T("SEQUENCE", members=[Member("id", T("INTEGER")), Member("note", T("BOOLEAN"), optional=True),
+                                             Member("d", T("INTEGER"), has_default=True, default=5, default_text="5"),
+                                             Member("e", T("BOOLEAN"), optional=True, ext=True)], ext=True)))
+    ts.append(("QO3", T("SET", members=[Member("id", T("INTEGER")), Member("note", T("BOOLEAN"), optional=True)], ext=True)))
     mods.append(Module("CatBig", "AUTOMATIC", ts))
     # 5. canonical CHOICE order through untagged nested CHOICEs whose alternatives mix tag classes (X.680 8.6)
     ts = []
@@ -913,6 +928,11 @@ def boundary_values(mod, t, depth=0):
                     out += [x, x + 1 if hi is None or x + 1 <= hi else x, x - 1 if lo is None or x - 1 >= lo else x]
             if lo is None or hi is None:
                 out += [0] if rt.cons.contains_root(0) else []
+                # octet-width boundaries, absolute and relative to the known bound
+                anchor = lo if lo is not None else hi
+                for k in (7, 8, 15, 16, 23, 24, 31, 32):
+                    for d in (-1, 0):
+                        out += [(1 << k) + d, -(1 << k) + d, anchor + (1 << k) + d, anchor - (1 << k) + d]
         return sorted(set(x for x in out if rt.cons.contains_root(x) and I64_MIN <= x <= I64_MAX))[:40]
     if depth > 3:
         return []
